@@ -61,6 +61,7 @@ def run(ctx, R):
     jit.rule_lw_sib(ctx, R, 'a64', F)
     jit.rule_lw_sib(ctx, R, 'rv64', F)
     rule_rcp_pure(ctx, R)
+    rule_rcp_eval(ctx, R)
     jit.rule_rcp(ctx, R, 'rvv')
     jit.rule_lw_sib(ctx, R, 'rvv', F)
     genreset.rule_gen_reset(ctx, R, 'x86')
@@ -68,3 +69,112 @@ def run(ctx, R):
     genreset.rule_gen_reset(ctx, R, 'rv64')
     rv64.rule_rvv_rcp(ctx, R, F)
     x86hsem.rule_hsem(ctx, R)
+
+
+def rule_rcp_eval(ctx, R):
+    """[RCP-EVAL] fixed-width evaluation of randomx_reciprocal under two data models"""
+    from astq import strip_all, val, show, walk
+    from core import AnalysisBroken
+    R.rule('RCP-EVAL', 'randomx_reciprocal, evaluated with the integer widths of the LP64 (host) and of the LLP64 (64-bit Windows: long is 32 bits) data model, returns floor(2^(63 + bitlength(d)) / d) for a grid of divisors '
+           '(small values, every 2^k +- 1, dense and sparse bit patterns, the largest values); the function body is interpreted with fixed-width arithmetic, the count-leading-zeros builtins with the width of their parameter type', min_instances=250)
+
+    def widths(model):
+        w = {'bool': 1, 'char': 8, 'signed char': 8, 'unsigned char': 8, 'short': 16, 'unsigned short': 16, 'int': 32, 'unsigned int': 32, 'unsigned': 32,
+             'long long': 64, 'unsigned long long': 64, 'long': 64 if model == 'LP64' else 32, 'unsigned long': 64 if model == 'LP64' else 32,
+             'uint32_t': 32, 'uint64_t': 64, 'int32_t': 32, 'int64_t': 64, 'size_t': 64}
+        return w
+
+    def tinfo(ty, W):
+        t = (ty or '').replace('const ', '').replace('volatile ', '').strip()
+        if t in W:
+            return W[t], not t.startswith('unsigned') and not t.startswith('uint') and t not in ('bool', 'size_t')
+        raise AnalysisBroken('RCP-EVAL: type %r' % ty)
+
+    def wrap(v, w, signed):
+        v &= (1 << w) - 1
+        return v - (1 << w) if signed and v >> (w - 1) else v
+
+    def ev(n, env, W):
+        k = n['k']
+        if 'v' in n and k not in ('Assign', 'CAssign', 'Ref'):
+            return n['v']
+        if k == 'Cast':
+            x = ev(n['e'], env, W)
+            if n.get('ck') in ('IntegralCast',):
+                w, sg = tinfo(n.get('ty'), W)
+                return wrap(x, w, sg)
+            return x
+        if k == 'Ref':
+            if n.get('id') in env:
+                return env[n['id']]
+            if 'v' in n:
+                return n['v']
+            raise AnalysisBroken('RCP-EVAL: value of %s' % show(n))
+        if k == 'Bin':
+            a, b = ev(n['l'], env, W), ev(n['r'], env, W)
+            w, sg = tinfo(n.get('ty'), W)
+            op = n['op']
+            if op in ('<<', '>>'):
+                lw, lsg = tinfo(n['l'].get('ty'), W)
+                if b < 0 or b >= lw:
+                    raise AnalysisBroken('RCP-EVAL: shift of a %d-bit value by %d (undefined) in %s' % (lw, b, show(n)[:50]))
+                return wrap(a << b if op == '<<' else a >> b, w, sg)
+            if op in ('/', '%'):
+                if b == 0:
+                    raise AnalysisBroken('RCP-EVAL: division by zero')
+                q = abs(a) // abs(b) * (1 if (a < 0) == (b < 0) else -1)
+                return wrap(q if op == '/' else a - q * b, w, sg)
+            f = {'+': a + b, '-': a - b, '*': a * b, '&': a & b, '|': a | b, '^': a ^ b, '==': int(a == b), '!=': int(a != b), '<': int(a < b), '>': int(a > b), '<=': int(a <= b), '>=': int(a >= b)}.get(op)
+            if f is None:
+                raise AnalysisBroken('RCP-EVAL: operator %s' % op)
+            return wrap(f, w, sg)
+        if k == 'Un':
+            a = ev(n['e'], env, W)
+            w, sg = tinfo(n.get('ty'), W)
+            if n.get('op') == '-':
+                return wrap(-a, w, sg)
+            if n.get('op') == '~':
+                return wrap(~a, w, sg)
+            if n.get('op') == '!':
+                return int(not a)
+        if k == 'Call':
+            nm = n.get('name') or ''
+            m = {'__builtin_clz': 'unsigned int', '__builtin_clzl': 'unsigned long', '__builtin_clzll': 'unsigned long long'}.get(nm)
+            if m:
+                w, _ = tinfo(m, W)
+                a = ev(n['a'][0], env, W) & ((1 << w) - 1)
+                if a == 0:
+                    raise AnalysisBroken('RCP-EVAL: %s(0) is undefined' % nm)
+                return w - a.bit_length()
+        raise AnalysisBroken('RCP-EVAL: expression %s' % show(n)[:60])
+
+    def run(f, d, W):
+        env = {f['params'][0]['id']: d}
+        for s_ in f['body']['s']:
+            if s_['k'] == 'Decl':
+                for dd in s_['d']:
+                    if dd.get('init') is not None:
+                        w, sg = tinfo(dd.get('ty'), W)
+                        env[dd['id']] = wrap(ev(dd['init'], env, W), w, sg)
+            elif s_['k'] == 'Return':
+                w, sg = tinfo(f.get('ret') or 'unsigned long long', dict(W, **{'uint64_t': 64}))
+                return wrap(ev(s_['e'], env, W), 64, False)
+            elif s_['k'] in ('Cond', 'Call', 'Cast', 'Null') or strip_all(s_)['k'] in ('Cond', 'Call', 'Cast', 'Null') or val(strip_all(s_)) is not None:
+                continue        # assert (compiled out or not)
+            else:
+                raise AnalysisBroken('RCP-EVAL: statement %s' % show(s_)[:60])
+        raise AnalysisBroken('RCP-EVAL: no return')
+
+    grid = set(range(3, 70)) | {0xFFFFFFFF, 0xFFFFFFFE, 0x80000001, 0x7FFFFFFF, 0xAAAAAAAB, 0x55555555, 0xDEADBEEF, 0x12345679, 0x00010001, 0x0000FFFF, 0xFFFF0001}
+    for k_ in range(2, 32):
+        grid |= {(1 << k_) + 1, (1 << k_) - 1, (1 << k_) + (1 << (k_ // 2)) | 1}
+    grid = sorted(d for d in grid if d & (d - 1) and 0 < d < (1 << 32))
+    for cfg, model in (('K0', 'LP64'), ('K5', 'LLP64')):
+        F = astq.Facts(ctx, cfg)
+        f = F.func('randomx_reciprocal')
+        R.saw(fn=f['q'], config=cfg)
+        W = widths(model)
+        for d in grid:
+            want = (1 << (63 + d.bit_length())) // d
+            got = run(f, d, W)
+            R.check(got == want, 'randomx_reciprocal(%#x) [%s]' % (d, model), '%s:%d' % (f['file'], f['line']), expected='%#x' % want, found='%#x' % got)
